@@ -118,7 +118,12 @@ prints through the same `print_args` / `print_char` pair.  Two repairs are model
 `abuf` — `print_args` drops a piece that does not fit instead of advancing past the end
 (`*len` wrapped around and every later store went out of the buffer), `print_char` keeps
 room for the NUL (finding C15-ARGBUF); `asym` — names taken from the data (the symbol a
-pointer argument resolves to) go through the escaper instead of `%s` (finding C15-ARGSYM). -/
+pointer argument resolves to) go through the escaper instead of `%s` (finding C15-ARGSYM).
+Both were confirmed on the real code (ASan stack-buffer-overflow in print_args / print_char
+under get_argspec_string <- dump_chrome_task_rstack; `"arguments":"(&q"x)"`).  Not modelled:
+what printf makes of the numeric formats (`ArgVal.raw`: the text is an input of the model),
+terminal colours (the check runs with --color=no), FORMAT_HTML, the non-JSON mode of the
+same function (replay / graph / tui, `args[1024]`). -/
 
 /-- one value of the argument list, as far as the text depends on it -/
 inductive ArgVal where
@@ -252,17 +257,19 @@ def headerFix (comm : List Byte) (tasks : List Task) : List Byte × Bool :=
 def header (fixed : Bool) (comm : List Byte) (tasks : List Task) : List Byte × Bool :=
   if fixed then headerFix comm tasks else headerPre comm tasks
 
-/-- which repairs are in: `main` = F9, F9b, S3 (all in /repo), `abuf` = C15-ARGBUF,
-    `asym` = C15-ARGSYM -/
+/-- which repairs are in: `main` = F9, F9b, S3, `abuf` = C15-ARGBUF (proposed_fixes/C15-ARGBUF.diff),
+    `asym` = C15-ARGSYM (proposed_fixes/C15-ARGSYM.diff) -/
 structure Fix where
   main : Bool
   abuf : Bool
   asym : Bool
   deriving Repr, DecidableEq
 
+/-- the repaired code -/
 def Fix.all : Fix := ⟨true, true, true⟩
-/-- /repo as it is -/
+/-- the tree with the `main` repairs only: before C15-ARGBUF and C15-ARGSYM -/
 def Fix.repo : Fix := ⟨true, false, false⟩
+/-- the tree before every repair -/
 def Fix.none : Fix := ⟨false, false, false⟩
 
 /-- the end of an event object: "}" or `,"args":{"arguments":"%s"}}` / `,"args":{"retval":"%s"}}` -/
